@@ -1,6 +1,7 @@
 from datetime import datetime
 import functools
 import itertools
+import operator
 try:
     from functools import lru_cache
 except ImportError:  # pragma: no cover
@@ -281,6 +282,22 @@ def _get_path(grid, obj, paths):
         return NOT_FOUND
 
 
+_CMP_OPS = {'==': operator.eq, '!=': operator.ne, '<': operator.lt,
+            '<=': operator.le, '>': operator.gt, '>=': operator.ge}
+
+
+def _cmp(op, left, right):
+    '''
+    A comparison on an absent tag or between incomparable kinds is false.
+    '''
+    if left is NOT_FOUND:
+        return False
+    try:
+        return bool(_CMP_OPS[op](left, right))
+    except TypeError:
+        return False
+
+
 def _generate_filter_in_python(node, def_filter, consts=None):
     '''
     Literal values of the filter are never printed in the generated source:
@@ -291,7 +308,14 @@ def _generate_filter_in_python(node, def_filter, consts=None):
     if isinstance(node, FilterPath):
         # tag names are identifiers ([a-z][a-zA-Z0-9_]*, checked by the grammar)
         def_filter.append("_get_path(_grid, _entity, %s)" % node.path)
+    elif isinstance(node, FilterBinary) and node.op in _CMP_OPS:
+        def_filter.append("_cmp(%r, " % node.op)
+        def_filter.extend(_generate_filter_in_python(node.left, [], consts))
+        def_filter.append(", ")
+        def_filter.extend(_generate_filter_in_python(node.right, [], consts))
+        def_filter.append(")")
     elif isinstance(node, FilterBinary):
+        assert node.op in ("and", "or")
         def_filter.append("(")
         def_filter.extend(_generate_filter_in_python(node.left, [], consts))
         def_filter.append(" " + node.op + " ")
